@@ -24,6 +24,13 @@ static COUNTER: Mutex<Option<HashMap<String, usize>>> = Mutex::new(None);
 
 /// A function used to count named objects
 fn count<S: Into<String>>(key: S) -> usize {
+    #[cfg(feature = "verif-hooks")]
+    let key: String = {
+        let key: String = key.into();
+        crate::verif_hooks::emit("namer_count", vec![("key", key.clone().into())]);
+        crate::verif_hooks::yield_point();
+        key
+    };
     *COUNTER
         .lock()
         .unwrap()
